@@ -112,4 +112,10 @@ CLAIMS = {
         note="Schedules are sampled at a few dozen millisecond scale; arbitrary preemption inside client-go's queue is not enumerated; verdicts are jitter-proof by construction (brackets, one-sided).",
         technique="property-based testing (rapid) over arrival schedules with a reference queue model and one-sided checks on the real queue",
     ),
+    "C14": dict(
+        text="Generated event sequences with interleaved batch swaps are delivered through the real watcher handlers; a sequential model of the batch under composition must match every batch handed out (exactly-once, order, ConfigMap chaining, class transitions as add/del). The same events are also delivered from several goroutines against a continuously swapping consumer under the race detector, checking conservation.",
+        design_ref="DESIGN.md section 3, C14",
+        note="Interleavings are not enumerated: the lock makes concurrent runs sequentially equivalent, the race detector and the conservation check guard the lock; failures of the concurrent part are schedule dependent and not shrinkable (the recorded case is saved as is).",
+        technique="stateful property-based testing (rapid) against a sequential reference model + randomized concurrent stress under -race",
+    ),
 }
